@@ -90,6 +90,8 @@ func (d *qeDom) Gen(r *gen.R, tier string, emit func(string)) {
 		emit(wire.Line("reset"))
 		emit(wire.Line("burst", strconv.Itoa(1+i%3)))
 		emit(wire.Line("reset"))
+		emit(wire.Line("pubfail", strconv.Itoa(1+i)))
+		emit(wire.Line("reset"))
 		emit(wire.Line("shutdownlive", strconv.Itoa(1+2*i)))
 		emit(wire.Line("reset"))
 		emit(wire.Line("restartdur", "0"))
@@ -329,7 +331,7 @@ func (d *qeDom) Exec(a []string) string {
 				return "no-query-subject"
 			}
 			return "ok"
-		case "serial", "queued", "lateenq", "burst", "shutdownlive", "restartdur":
+		case "serial", "queued", "lateenq", "burst", "pubfail", "shutdownlive", "restartdur":
 			d.Close()
 			return qeScenario(a)
 		case "req":
